@@ -16,7 +16,7 @@ for c in "$@"; do
   XV_REPO=$sb/repo ./check $c --tier $tier > /verif/work/sandbox/$name.$c.log 2>&1; rc=$?
   v=$(grep -c '^VIOLATION' /verif/work/sandbox/$name.$c.log)
   first=$(grep -m1 '^VIOLATION' /verif/work/sandbox/$name.$c.log | sed 's/^VIOLATION property=[A-Z0-9]* replay=[^ ]* *# *//' | cut -c1-200)
-  echo "$name $c tier=$tier rc=$rc violations=$v :: $first"
+  printf "%s\n" "$name $c tier=$tier rc=$rc violations=$v :: $first"
 done
 cd /
 git -C /repo worktree remove --force $sb/repo
